@@ -293,3 +293,208 @@ Proof.
     + unfold inside. rewrite tfirst_times, tlast_times, Ht. exact Ht'.
     + unfold inside. rewrite tfirst_times, tlast_times, Ht. exact Hu'.
 Qed.
+
+(* ---------- duration = longest input duration ---------- *)
+Theorem add_duration_is_max_trap s mg ms grads g :
+  add_gradients s mg ms grads = OK (P_trap, g) -> (forall x, In x grads -> WF x) ->
+  g_dur g == maxl (map g_dur grads).
+Proof.
+  intros H Hwf. destruct (add_trap_duration_first_last _ _ _ _ _ H Hwf) as (_ & _ & Hall).
+  assert (Hne : map g_dur grads <> []).
+  { destruct grads as [|x l]; [discriminate H|discriminate]. }
+  pose proof (maxl_in _ Hne) as Hin. apply in_map_iff in Hin. destruct Hin as (x & Hx & Hxin).
+  destruct (Hall x Hxin) as [Hd _]. rewrite <- Hx. symmetry. exact Hd.
+Qed.
+
+Lemma dur_in_T0 grads g : In g grads -> WF g -> FieldsOk g -> InQ (g_dur g) (T0 grads).
+Proof.
+  intros Hg Hw Hf.
+  assert (H : InQ (g_dur g) (grad_times g)).
+  { destruct g as [t|e]; cbn [g_dur grad_times].
+    - eexists. split; [right; right; right; left; reflexivity|reflexivity].
+    - destruct Hw as (_ & Hne & _ & _). destruct Hf as (_ & _ & F3).
+      exists (eg_delay e + last (eg_tt e) 0). split; [|lra].
+      apply (in_map (fun x => eg_delay e + x)). apply last_in. exact Hne. }
+  destruct H as (b & Hb & E).
+  assert (Hb' : In b (flat_map grad_times grads)) by (apply in_flat_map; exists g; split; assumption).
+  destruct (sort_uniq_InQ _ b Hb') as (b' & Hb'' & E'). exists b'. split; [exact Hb''|lra].
+Qed.
+
+Theorem add_duration_is_max_ext s D mg ms grads g :
+  add_gradients s mg ms grads = OK (P_ext, g) -> C05Legal s D grads ->
+  g_dur g == maxl (map g_dur grads).
+Proof.
+  intros H Hl. pose proof (c05_legal_inputs_ok s D grads Hl) as Hok.
+  destruct (add_ext_first_last_duration _ _ _ _ _ H Hok) as (_ & _ & Hd). rewrite Hd.
+  assert (Hne : map g_dur grads <> []).
+  { pose proof (cl_nonempty _ _ _ Hl). destruct grads; [congruence|discriminate]. }
+  assert (HTs : sorted_strict (T0 grads)) by apply sort_uniq_sorted.
+  apply Qle_antisym.
+  - (* the last corner time belongs to some input and is at most its duration *)
+    pose proof (maxl_in _ Hne) as Hin. apply in_map_iff in Hin. destruct Hin as (x & Hx & Hxin).
+    destruct (cl_wf _ _ _ Hl x Hxin) as [Hw Hf].
+    destruct (dur_in_T0 grads x Hxin Hw Hf) as (b & Hb & E).
+    assert (HTne : T0 grads <> []) by (intro E0; rewrite E0 in Hb; destruct Hb).
+    destruct (T0_in _ _ (last_in _ 0 HTne)) as (g' & Hg' & Hc').
+    destruct (cl_wf _ _ _ Hl g' Hg') as [Hw' Hf'].
+    destruct (grad_times_bounds g' Hw' Hf') as [_ Hb']. destruct (Hb' _ Hc') as [_ Hb2].
+    pose proof (maxl_ge (map g_dur grads) (g_dur g') (in_map g_dur _ _ Hg')). lra.
+  - pose proof (maxl_in _ Hne) as Hin. apply in_map_iff in Hin. destruct Hin as (x & Hx & Hxin).
+    destruct (cl_wf _ _ _ Hl x Hxin) as [Hw Hf].
+    destruct (dur_in_T0 grads x Hxin Hw Hf) as (b & Hb & E).
+    pose proof (sorted_le_last _ HTs b Hb). rewrite <- Hx. lra.
+Qed.
+
+(* raster path: the number of returned samples times the raster is the longest duration - cd *)
+Lemma length_vadd a : forall b, length (vadd a b) = Nat.max (length a) (length b).
+Proof.
+  induction a as [|x a IH]; intros [|y b]; cbn [vadd length]; try reflexivity; try lia.
+  rewrite IH. reflexivity.
+Qed.
+
+Lemma fold_vadd_length ws : forall acc,
+  let L := length (fold_left vadd ws acc) in
+  (length acc <= L)%nat /\ (forall w, In w ws -> (length w <= L)%nat) /\
+  (L = length acc \/ exists w, In w ws /\ L = length w).
+Proof.
+  induction ws as [|w ws IH]; intros acc; cbn [fold_left].
+  - split; [lia|]. split; [intros w []|left; reflexivity].
+  - destruct (IH (vadd acc w)) as (H1 & H2 & H3). rewrite length_vadd in H1, H3.
+    split; [lia|]. split.
+    + intros w' [<-|Hw']; [lia|apply H2; exact Hw'].
+    + destruct H3 as [H3|(w' & Hw' & E)].
+      * destruct (Nat.max_spec (length acc) (length w)) as [[_ E]|[_ E]]; rewrite E in H3.
+        -- right. exists w. split; [left; reflexivity|exact H3].
+        -- left. exact H3.
+      * right. exists w'. split; [right; exact Hw'|exact E].
+Qed.
+
+Lemma zrange_length n : forall k, length (zrange k n) = n.
+Proof. induction n as [|n IH]; intro k; [reflexivity|]. cbn. rewrite IH. reflexivity. Qed.
+
+Lemma p2w_length r (p : pwl) (k0 N : Z) : 0 < r -> p <> [] -> sorted_strict (times p) ->
+  tfirst p == inject_Z k0 * r -> tlast p == inject_Z (k0 + N) * r ->
+  length (p2w r p) = Z.to_nat N.
+Proof.
+  intros Hr Hne Hs Hf Hl. destruct p as [|a p']; [congruence|].
+  set (p := a :: p') in *. unfold p2w. fold p.
+  change (match p with [] => [0] | _ :: _ =>
+            map (fun k => interp_clamp p (inject_Z k * r + r / 2))
+              (zrange (rnd_he (minl (times p) / r)) (Z.to_nat (rnd_he (maxl (times p) / r) - rnd_he (minl (times p) / r))))
+          end)
+    with (map (fun k => interp_clamp p (inject_Z k * r + r / 2))
+              (zrange (rnd_he (minl (times p) / r)) (Z.to_nat (rnd_he (maxl (times p) / r) - rnd_he (minl (times p) / r))))).
+  rewrite map_length, zrange_length.
+  rewrite (minl_sorted _ Hs), (maxl_sorted _ Hs), <- tfirst_times, <- tlast_times.
+  rewrite (rnd_on_raster r (tfirst p) k0 Hr Hf), (rnd_on_raster r (tlast p) (k0 + N) Hr Hl).
+  f_equal. lia.
+Qed.
+
+Lemma pad_length s cd g (w : list Q) (m : Z) :
+  0 < s_raster s -> (0 <= m)%Z -> g_delay g - cd == inject_Z m * s_raster s ->
+  length (if Qgtb (g_delay g - cd) 0
+          then repeat 0 (Z.to_nat (rnd_he ((g_delay g - cd) / s_raster s))) ++ w else w)
+  = (Z.to_nat m + length w)%nat.
+Proof.
+  intros Hr Hm Hd. unfold Qgtb. case_ltb 0 (g_delay g - cd) E.
+  - rewrite (rnd_on_raster _ _ m Hr Hd), app_length, repeat_length. reflexivity.
+  - assert (m = 0%Z) by (apply (nonneg_raster_zero (s_raster s)); [exact Hr|exact Hm|lra]).
+    subst m. reflexivity.
+Qed.
+
+Lemma inject_nat_sum r (m N : Z) : (0 <= m)%Z -> (0 <= N)%Z ->
+  inject_Z (Z.of_nat (Z.to_nat m + Z.to_nat N)) * r == inject_Z m * r + inject_Z N * r.
+Proof.
+  intros Hm HN. rewrite Nat2Z.inj_add, !Z2Nat.id by assumption. rewrite inject_Z_plus. ring.
+Qed.
+
+(* the samples of one input cover exactly  [cd, end of the input) *)
+Lemma input_samples_length s grads g : RasterInputsOk s grads -> In g grads -> FieldsOk g ->
+  inject_Z (Z.of_nat (length (raster_samples s (minl (map g_delay grads)) g))) * s_raster s
+  == g_dur g - minl (map g_delay grads).
+Proof.
+  intros H Hg Hfo. pose proof (rio_raster _ _ H) as Hr.
+  destruct (delay_offset s grads g H Hg) as (m & Hm & Hd).
+  destruct (rio_in _ _ H g Hg) as [_ Hk].
+  set (cd := minl (map g_delay grads)) in *.
+  destruct g as [t|e].
+  - destruct Hk as [(H1 & H2 & H3) (N & HN)]. cbn [g_delay] in Hd.
+    set (p := trap_pwl (tr_amp t) (tr_rise t) (tr_flat t) (tr_fall t) (tr_delay t - cd)).
+    destruct (trap_pwl_ends (tr_amp t) (tr_rise t) (tr_flat t) (tr_fall t) (tr_delay t - cd) H2)
+      as (Hne & Hf & Hl). fold p in Hne, Hf, Hl.
+    assert (Hs : sorted_strict (times p)) by (apply trap_pwl_sorted; assumption).
+    assert (HN0 : (0 <= N)%Z) by (apply (inject_Z_le_0 N (s_raster s) Hr); lra).
+    assert (Hf' : tfirst p == inject_Z m * (s_raster s)) by (rewrite Hf; exact Hd).
+    assert (Hl' : tlast p == inject_Z (m + N) * (s_raster s)) by (rewrite Hl, inject_Z_plus; lra).
+    unfold raster_samples. fold p.
+    rewrite (pad_length s cd (GTrap t) (p2w (s_raster s) p) m Hr Hm Hd).
+    rewrite (p2w_length (s_raster s) p m N Hr Hne Hs Hf' Hl').
+    rewrite (inject_nat_sum (s_raster s) m N Hm HN0). cbn [g_dur g_delay] in *. lra.
+  - destruct (is_arb s (GExt e)) eqn:Ea.
+    + destruct Hk as (Hlen & Hn & Htt & Hsd).
+      unfold raster_samples. rewrite Ea.
+      rewrite (pad_length s cd (GExt e) (eg_wf e) m Hr Hm Hd).
+      rewrite Nat2Z.inj_add, Z2Nat.id, inject_Z_plus by exact Hm.
+      cbn [g_dur g_delay] in *. rewrite Hsd. lra.
+    + destruct Hk as [(H1 & H2 & H3 & H4) (N & HN)]. destruct Hfo as (_ & _ & F3).
+      set (p := combine (eg_tt e) (eg_wf e)).
+      assert (Ht : times p = eg_tt e) by (apply times_combine; exact H4).
+      assert (Hne : p <> []).
+      { unfold p. destruct (eg_tt e) as [|a l]; [congruence|]. destruct (eg_wf e); discriminate. }
+      assert (Hs : sorted_strict (times p)) by (rewrite Ht; exact H1).
+      assert (Hf' : tfirst p == inject_Z 0 * (s_raster s)).
+      { unfold p. rewrite tfirst_combine by exact H4. rewrite H3. change (inject_Z 0) with 0. ring. }
+      assert (Hl' : tlast p == inject_Z (0 + N) * (s_raster s)) by (rewrite tlast_times, Ht; exact HN).
+      assert (HN0 : (0 <= N)%Z).
+      { apply (inject_Z_le_0 N (s_raster s) Hr). rewrite <- HN.
+        pose proof (sorted_le_last _ H1 (hd 0 (eg_tt e))) as HH.
+        assert (In (hd 0 (eg_tt e)) (eg_tt e)) by (destruct (eg_tt e); [congruence|left; reflexivity]).
+        specialize (HH H0). lra. }
+      unfold raster_samples. rewrite Ea. fold p.
+      rewrite (pad_length s cd (GExt e) (p2w (s_raster s) p) m Hr Hm Hd).
+      rewrite (p2w_length (s_raster s) p 0 N Hr Hne Hs Hf' Hl').
+      rewrite (inject_nat_sum (s_raster s) m N Hm HN0). cbn [g_dur g_delay] in *. lra.
+Qed.
+
+Theorem add_duration_is_max_raster s mg ms grads g :
+  add_gradients s mg ms grads = OK (P_raster, g) -> RasterInputsOk s grads ->
+  (forall x, In x grads -> FieldsOk x) ->
+  g_dur g == maxl (map g_dur grads).
+Proof.
+  intros H Hok Hfo. pose proof (rio_raster _ _ Hok) as Hr.
+  destruct (add_gradients_raster_inv _ _ _ _ _ H) as (mg' & ms' & Hm).
+  destruct (make_arb_ArbOk _ _ _ _ _ _ _ _ Hm) as (e & -> & Hd & Hw & (_ & _ & _ & Hsd)).
+  set (cd := minl (map g_delay grads)) in *. set (r := s_raster s) in *.
+  cbn [g_dur]. rewrite Hd, Hsd, Hw. unfold raster_sum. fold cd.
+  destruct (fold_vadd_length (map (raster_samples s cd) grads) []) as (_ & Hall & Hex).
+  set (L := length (fold_left vadd (map (raster_samples s cd) grads) [])) in *.
+  assert (Hne : grads <> []) by apply (rio_nonempty _ _ Hok).
+  assert (Hne' : map g_dur grads <> []) by (destruct grads; [congruence|discriminate]).
+  (* every input ends at or before cd + L r *)
+  assert (Hub : forall x, In x grads -> g_dur x <= cd + inject_Z (Z.of_nat L) * r).
+  { intros x Hx. pose proof (input_samples_length s grads x Hok Hx (Hfo x Hx)) as E. fold cd r in E.
+    pose proof (Hall _ (in_map (raster_samples s cd) _ _ Hx)) as Hle.
+    assert (inject_Z (Z.of_nat (length (raster_samples s cd x))) <= inject_Z (Z.of_nat L))
+      by (rewrite <- Zle_Qle; lia).
+    assert (inject_Z (Z.of_nat (length (raster_samples s cd x))) * r <= inject_Z (Z.of_nat L) * r)
+      by (apply Qmult_le_compat_r; lra). lra. }
+  (* and some input ends exactly there *)
+  assert (Hex' : exists x, In x grads /\ g_dur x == cd + inject_Z (Z.of_nat L) * r).
+  { destruct Hex as [E0|(w & Hw' & E)].
+    - (* L = 0: every sample list is empty *)
+      destruct grads as [|x l]; [congruence|]. exists x. split; [left; reflexivity|].
+      pose proof (input_samples_length s (x :: l) x Hok (or_introl eq_refl) (Hfo x (or_introl eq_refl))) as E.
+      fold cd r in E.
+      pose proof (Hall _ (in_map (raster_samples s cd) (x :: l) x (or_introl eq_refl))) as Hle.
+      assert (HL : L = 0%nat) by exact E0.
+      assert (Hz : length (raster_samples s cd x) = 0%nat) by lia.
+      rewrite Hz in E. rewrite HL. change (inject_Z (Z.of_nat 0)) with 0 in *. lra.
+    - apply in_map_iff in Hw'. destruct Hw' as (x & <- & Hx). exists x. split; [exact Hx|].
+      pose proof (input_samples_length s grads x Hok Hx (Hfo x Hx)) as E'. fold cd r in E'.
+      rewrite <- E in E'. lra. }
+  destruct Hex' as (x & Hx & Ex).
+  apply Qle_antisym.
+  - rewrite <- Ex. apply maxl_ge. apply in_map. exact Hx.
+  - pose proof (maxl_in _ Hne') as Hin. apply in_map_iff in Hin. destruct Hin as (y & Hy & Hyin).
+    rewrite <- Hy. apply Hub. exact Hyin.
+Qed.
